@@ -117,6 +117,8 @@ type gen struct {
 	ibOps   map[int][]Op
 	steps   []Step
 	unsyncd bool
+	// wantHold: a motif needs SchedPlan.HoldManifest
+	wantHold bool
 	// memDirty: something was committed since the last flush.
 	memDirty bool
 	fmvNow   int
@@ -297,6 +299,10 @@ func (g *gen) motif(label string) {
 	nm := 3
 	if g.p.MaxBatches > 0 && g.enabled("ibop") && g.enabled("iternew") {
 		nm = 5 // the batch-refresh motif, twice as likely
+	}
+	if g.p.CrashGen != nil && !g.opt.DisableWAL && rapid.IntRange(0, 3).Draw(g.t, label+"walrace") == 0 {
+		g.walRaceMotif(label)
+		return
 	}
 	m := rapid.IntRange(0, nm+1).Draw(g.t, label+"motif")
 	if m == nm+1 {
@@ -577,6 +583,48 @@ func (g *gen) writeOp(label string, longLived bool) Op {
 		o.V = fmt.Sprintf("l%d", g.nval)
 	}
 	return o
+}
+
+// walRaceMotif: acknowledged synced commits sit in a WAL whose memtable is being
+// flushed in the background while the flush's MANIFEST sync is held back
+// (SchedPlan.HoldManifest); meanwhile the foreground closes a reader that
+// pinned since-compacted tables (an obsolete-file pass on the foreground) and
+// keeps committing until the WAL rotates again (WAL recycling / deletion).
+// Crash images taken on the way lack the unsynced MANIFEST edit, so the WAL
+// must still be there.
+func (g *gen) walRaceMotif(label string) {
+	g.wantHold = true
+	// room for a second memtable rotation while the first flush is still held
+	g.opt.MemStop = max(g.opt.MemStop, 4)
+	set := func(tag string, vlen int) {
+		g.nval++
+		o := Op{K: "set", A: g.key(label + tag), V: fmt.Sprintf("v%d", g.nval), VLen: vlen}
+		g.steps = append(g.steps, Step{K: "write", Ops: []Op{o}, Sync: true})
+		g.commitOps([]Op{o})
+	}
+	id := g.newID()
+	io := IterOpts{}
+	set("w0", 0)
+	g.steps = append(g.steps, Step{K: "flush"})
+	g.memDirty, g.unsyncd = false, false
+	g.steps = append(g.steps, Step{K: "iternew", ID: id, On: "db", IO: &io, IOps: []IterOp{{Op: "first"}}})
+	set("w1", 0)
+	g.steps = append(g.steps, Step{K: "flush"}, Step{K: "compact", A: Prefixes[0], B: "z"}, Step{K: "wait"})
+	g.memDirty = false
+	for i, n := 0, rapid.IntRange(1, 3).Draw(g.t, label+"nsmall"); i < n; i++ {
+		set(fmt.Sprintf("s%d", i), rapid.IntRange(0, 60).Draw(g.t, fmt.Sprintf("%ssl%d", label, i)))
+	}
+	big := g.opt.MemTableSize * 2 / 5
+	for i := 0; i < 3; i++ {
+		set(fmt.Sprintf("b%d", i), big)
+	}
+	g.steps = append(g.steps, Step{K: "waithold"}, Step{K: "iterclose", ID: id})
+	for i := 3; i < 6; i++ {
+		set(fmt.Sprintf("b%d", i), big)
+	}
+	if rapid.Bool().Draw(g.t, label+"tailwait") {
+		g.steps = append(g.steps, Step{K: "wait"})
+	}
 }
 
 // rkPile draws many range-key writes over one span with few distinct suffixes:
@@ -928,6 +976,12 @@ func Generate(t *rapid.T, p Profile) Plan {
 	for i := 0; i < n; i++ {
 		g.step(fmt.Sprintf("s%d", i))
 	}
+	if g.wantHold {
+		if sp == nil {
+			sp = &SchedPlan{Salt: 1, Pct: 0, Max: 4}
+		}
+		sp.HoldManifest = rapid.IntRange(4, 8).Draw(t, "holdmanmotif")
+	}
 	return Plan{Profile: p.Name, Opt: g.opt, Steps: g.steps, Crash: cp, Sched: sp}
 }
 
@@ -1089,7 +1143,6 @@ func (g *gen) emit(label, kind string) {
 			g.nval++
 			o := Op{K: "set", A: s.Tables[0][0].A, V: fmt.Sprintf("v%d", g.nval)}
 			g.steps = append(g.steps, Step{K: "write", Ops: []Op{o}, Sync: true})
-			g.st = g.st.Apply([]Op{o})
 			g.commitOps([]Op{o})
 		}
 		exA, exB := "", ""
